@@ -255,7 +255,11 @@ impl ClnRpc for Rpc {
         let q = Q::WaitPart { groupid: r.groupid, partid: Some(r.partid.unwrap_or(0)), timeout: r.timeout };
         match self.call(hash, q).await {
             Reply::Pre(p) => Ok(serde_json::from_value(json!({"status": "complete", "amount_sent_msat": 1, "created_at": 1, "id": 1, "payment_hash": hh, "payment_preimage": hex::encode(p)})).unwrap()),
-            Reply::PartFailed(c) => Err(to_err(ErrKind::Code(c))),
+            // lightningd's waitsendpay failure carries the fields of the failed part in the error's data: its status is "failed" even
+            // while other parts of the payment are still pending
+            Reply::PartFailed(c) => Err(RpcError::Rpc(cln_rpc::RpcError { code: Some(c), message: format!("simulated waitsendpay failure {}", c),
+                data: Some(json!({"id": 1, "payment_hash": hh, "groupid": r.groupid, "partid": r.partid.unwrap_or(0), "status": "failed", "created_at": 1,
+                                  "amount_sent_msat": 1, "erring_index": 1, "failcode": 4103, "failcodename": "WIRE_TEMPORARY_CHANNEL_FAILURE"})) })),
             Reply::Err(k) => Err(to_err(k)),
             _ => Err(to_err(ErrKind::Transport)),
         }
